@@ -28,6 +28,9 @@ def compact():
                     sig = ss[0].split(": ")[0][:80]
         files = ", ".join(os.path.basename(f) for f in (m.get("files_touched") or []))
         missed = "yes" if (m.get("note") or "").startswith(("MISSED", "INCONCLUSIVE")) else ""
+        rs = det.get("rescreen")
+        if rs:
+            caught += " / final re-screen: " + ("caught" if rs.get("caught") else ("inconclusive" if rs.get("inconclusive") else "**missed**"))
         out.append(f"| {sid} | {files} | {caught} | `{sig}` | {missed} |")
     print("\n".join(out))
     return 0
